@@ -379,10 +379,12 @@ fn hist_actions() -> Vec<H> {
         H::SetCf(0),
         H::SetCf(11542),
         H::RawCf(vec![40]),
+        H::RawCf(vec![0, 50]),
         H::RawCf(vec![1, 2, 3]),
         H::SetObs(true),
         H::SetObs(false),
         H::RawObs(vec![5]),
+        H::RawObs(vec![0, 1]),
         H::SetPath("x"),
         H::SetPath("/y/z"),
         H::SetPath(""),
@@ -404,7 +406,7 @@ fn histories(ctx: &Ctx, rep: &mut Report) {
     ctx.family(
         rep,
         "setter-histories",
-        &format!("every sequence of 0..={} operations over 18 setter / raw-add operations (content format, observe flag, path, status, method, clear_all_options); for each kind whose last touching operation was a setter, getter, raw accessor and encoded bytes show that value", maxlen),
+        &format!("every sequence of 0..={} operations over 20 setter / raw-add operations (content format, observe flag, path, status, method, clear_all_options); for each kind whose last touching operation was a setter, getter, raw accessor and encoded bytes show that value", maxlen),
         n,
         true,
         |i, rep| {
@@ -567,35 +569,45 @@ macro_rules! trait_views {
     ($fname:ident, $cm:ident, $label:expr) => {
         fn $fname(ctx: &Ctx, rep: &mut Report) {
             use $cm::{MessageOption, MinimalWritableMessage, MutableWritableMessage, ReadableMessage};
-            let radices = [SELECTIONS, 2, 4];
+            // last coordinate: an option that was added and cleared again (its emptied list stays in the
+            // map) below / between / above the others: 0 none, 1 number 3, 2 number 13, 3 number 65001
+            let radices = [SELECTIONS, 2, 4, 4];
             let codes_sub: [u8; 4] = [0x01, 0x45, 0x00, 0xFF];
             let n = product(&radices) + 256;
             let fam = concat!("trait-views-", $label);
             ctx.family(
                 rep,
                 fam,
-                concat!("coap-message ", $label, ": every ordered selection of <= 4 of the options {1, 11, 11', 12, 60, 258, 65000} x payload {none, 3 bytes} x 4 codes, plus all 256 codes: reader view == raw state (options flattened in ascending number, per-number insertion order); writer calls change exactly the raw state; set_from_message reproduces code/options/payload; payload_mut_with_len / truncate / mutate_options visible through the raw API"),
+                concat!("coap-message ", $label, ": every ordered selection of <= 4 of the options {1, 11, 11', 12, 60, 258, 65000} x payload {none, 3 bytes} x 4 codes x {no cleared option, an added-then-cleared option below / between / above the others}, plus all 256 codes: reader view == raw state (options flattened in ascending number, per-number insertion order); writer calls change exactly the raw state; set_from_message reproduces code/options/payload; payload_mut_with_len / truncate / mutate_options visible through the raw API"),
                 n,
                 true,
                 |i, rep| {
-                    let (sel, with_payload, code) = if i < product(&radices) {
+                    let (sel, with_payload, code, cleared) = if i < product(&radices) {
                         let d = decode(i, &radices);
-                        (selection(d[0]), d[1] == 1, codes_sub[d[2] as usize])
+                        (selection(d[0]), d[1] == 1, codes_sub[d[2] as usize], [0u16, 3, 13, 65001][d[3] as usize])
                     } else {
-                        (vec![1, 3], true, (i - product(&radices)) as u8)
+                        (vec![1, 3], true, (i - product(&radices)) as u8, 0u16)
                     };
                     let payload: Vec<u8> = if with_payload { vec![0xFF, 0x00, 0x7F] } else { vec![] };
-                    let case = || Json::obj().set("options_in_call_order", sel.iter().map(|k| TV_OPTS[*k].0).collect::<Vec<_>>()).set("code", reg::dotted(code)).set("payload_len", payload.len());
+                    let case = || Json::obj().set("options_in_call_order", sel.iter().map(|k| TV_OPTS[*k].0).collect::<Vec<_>>()).set("code", reg::dotted(code)).set("payload_len", payload.len()).set("added_then_cleared_option", cleared);
                     let r = guard(|| {
                         // raw construction
                         let mut raw = Packet::new();
                         raw.header.code = MessageClass::from(code);
+                        if cleared != 0 {
+                            raw.add_option(CoapOption::from(cleared), vec![0xCC]);
+                            raw.clear_option(CoapOption::from(cleared));
+                        }
                         for k in &sel {
                             raw.add_option(CoapOption::from(TV_OPTS[*k].0), TV_OPTS[*k].1.to_vec());
                         }
                         raw.payload = payload.clone();
                         // construction through the writer trait
                         let mut via = Packet::new();
+                        if cleared != 0 {
+                            Fin::fin(MinimalWritableMessage::add_option(&mut via, CoapOption::from(cleared), &[0xCC]));
+                            via.clear_option(CoapOption::from(cleared));
+                        }
                         MinimalWritableMessage::set_code(&mut via, MessageClass::from(code));
                         for k in &sel {
                             Fin::fin(MinimalWritableMessage::add_option(&mut via, CoapOption::from(TV_OPTS[*k].0), TV_OPTS[*k].1));
@@ -660,7 +672,7 @@ macro_rules! trait_views {
                                 Some((sig, what)) => rep.violation(viol(fam, i, sig, what, case())),
                                 None => {
                                     rep.count("trait-views-agree");
-                                    rep.bucket(&($label, sel.len(), with_payload, code, sel.windows(2).any(|w| TV_OPTS[w[0]].0 > TV_OPTS[w[1]].0)));
+                                    rep.bucket(&($label, sel.len(), with_payload, code, cleared, sel.windows(2).any(|w| TV_OPTS[w[0]].0 > TV_OPTS[w[1]].0)));
                                 }
                             }
                         }
